@@ -63,7 +63,7 @@ type KnownFinding struct {
 	Commit   string `json:"commit,omitempty"`
 }
 
-const repoDir = "/repo"
+var repoDir = "/repo"
 const modPath = "github.com/dop251/goja"
 
 var verifDir = "/verif"
@@ -159,7 +159,9 @@ func main() {
 	logSMT := flag.String("logsmt", "", "directory for SMT transcripts (debug)")
 	verbose := flag.Bool("v", false, "verbose")
 	noEvidence := flag.Bool("noevidence", false, "do not write evidence")
+	boundsOv := flag.String("bounds", "", "override tier bounds, e.g. K=1,M=1 (debugging; evidence records the bounds actually used)")
 	flag.StringVar(&verifDir, "verif", "/verif", "verif dir")
+	flag.StringVar(&repoDir, "repo", "/repo", "goja source tree to check (default /repo; scratch worktrees for seeded changes)")
 	flag.Parse()
 	if *prop == "" {
 		fmt.Fprintln(os.Stderr, "usage: symgo -prop Cxx -tier quick|thorough")
@@ -215,6 +217,22 @@ func main() {
 			h.Bounds = map[string]int{}
 		}
 		h.Unwind = tc.Unwind
+		if *boundsOv != "" {
+			nb := map[string]int{}
+			for k, v := range h.Bounds {
+				nb[k] = v
+			}
+			for _, kv := range strings.Split(*boundsOv, ",") {
+				var k string
+				var v int
+				if i := strings.Index(kv, "="); i > 0 {
+					k = kv[:i]
+					fmt.Sscanf(kv[i+1:], "%d", &v)
+					nb[k] = v
+				}
+			}
+			h.Bounds = nb
+		}
 		sel = append(sel, h)
 	}
 	if len(sel) == 0 {
